@@ -75,8 +75,9 @@ func findTypesInPackage(
 			continue
 		}
 
-		// We want named types (struct, int, string, etc.)
-		namedType, ok := typeName.Type().(*types.Named)
+		// We want named types (struct, int, string, etc.); an annotated alias
+		// declaration (type A = T) stands for the type it names
+		namedType, ok := types.Unalias(typeName.Type()).(*types.Named)
 		if !ok {
 			continue
 		}
